@@ -10,14 +10,16 @@ From SU.Proofs Require Import MidiExtraProofs.
 From SU.Proofs Require Import MidiCapacityWitness.
 Open Scope Z_scope.
 
-(** [falling_gate()] called after any history returns true iff there is a gate fall
+(** [falling_gate()] called after any history within capacity (unconditional version: C05_falling_any)
+    returns true iff there is a gate fall
     not yet consumed by an earlier call and not followed by a new note-on *)
 Theorem C05_falling : forall ch h,
   within_capacity (Z.min ch 15) h ->
   mout ch h OPollFall = Some (pending_fall (Z.min ch 15) h).
 Proof. exact falling_refines. Qed.
 
-(** [rising_gate()] called after any history returns true iff there is a raising note-on
+(** [rising_gate()] called after any history within capacity (unconditional version: C05_rising_any)
+    returns true iff there is a raising note-on
     (gate was low, or retrigger mode) not yet consumed and not followed by a gate fall *)
 Theorem C05_rising : forall ch h,
   within_capacity (Z.min ch 15) h ->
